@@ -75,6 +75,16 @@ package annotateparser
 //@        && len(as(result, "*annotateast.AnnotateReturnState").ReturnOptionList) == len(as(result, "*annotateast.AnnotateReturnState").ReturnTypeList)
 //@   loop 0 invariant [C16] len(returnState.ReturnOptionList) == len(returnState.ReturnTypeList)
 //@ end
+// ---@return T1[?] [, T2[?] ...]: after each type - and after its optional marker, when there is one - the NEXT token
+// decides whether the list goes on: the list ends only where that token, looked up afresh, is not a comma
+//@ func parserReturnState
+//@   props C16
+//@   loop 0 exits-early-only-if [return-list-ends-only-where-no-comma-follows-the-type-and-its-marker]
+//@        lastresult("LookAheadKind#1") != annotatelexer.ATokenSepComma && hits("LookAheadKind#1") == hits("parserOneType#0")
+//@   loop 0 invariant [C16] hits("LookAheadKind#1") == hits("parserOneType#0") && hits("LookAheadKind#0") == hits("parserOneType#0")
+//@   at call LookAheadKind#1 before assert[separator-is-looked-up-after-the-optional-marker-was-consumed] hits("LookAheadKind#0") == hits("parserOneType#0")
+//@        && (lastresult("LookAheadKind#0") == annotatelexer.ATokenOption ==> hits("NextToken#0") >= 1)
+//@ end
 
 //@ func parserGenericState
 //@   sweep C01
